@@ -5,6 +5,7 @@ import re
 
 from harness.lib import sx as SX
 from harness.props import llp_common as L
+from harness.props import c01 as _C01     # LINE_BREAKISH / ODD_SPACE / _odd_core / _odd_trail: the odd-character lexemes of C01's texts
 
 ID = "C02"
 COQ_DIR = "C02"
@@ -12,7 +13,7 @@ EXTRA_COQ_DIRS = ["LLP", "C01"]
 RUN_MOD = "C02.Run"
 MODEL_TARGETS = ["C02/Run.vo"]
 PROOF_TARGETS = ["C02/Lemmas.vo"]
-PROPS = ["C02/Props.v", "C02/PropsTok.v"]
+PROPS = ["C02/Props.v", "C02/PropsTok.v", "C02/PropsAny.v"]
 ALLOWED_AXIOMS = []
 IMPL_TIMEOUT = 30.0
 COQ_SHARD = 6
@@ -51,7 +52,20 @@ RULE = ("grammars: (a) generator biased to LL(1) (distinct leading terminals, at
         "thrown in; newlines where two lexemes would merge; no white-space token at the end of a line, where the tokenizer strips it); "
         "the expected token sequence after skipping is the generator's own, never the library's; membership and the expected tree "
         "are computed from it (Earley, enumeration of derivations).  The same programs over two objects as above, all constructor "
-        "calls with the SAME argument objects (which must be unchanged afterwards).  "
+        "calls with the SAME argument objects (which must be unchanged afterwards).  ODD CHARACTERS INSIDE TOKENS (since round 4b): "
+        "the white-space class has lexemes with the characters at which str.splitlines() but not split('\\n') cuts (VT, FF, FS, GS, "
+        "RS, NEL, U+2028, U+2029, a lone CR) and other non-ASCII white space; 55% of the configurations have a free-text class "
+        "(REST / renamed TEXT: marker and the rest of the line), 45% a quoted-string class (DQ / renamed STRING), comments get such "
+        "lexemes too (C01's _odd_core / _odd_trail: the characters inside the token, white space of any kind at the line end where "
+        "rstrip() removes it); free-text classes are preferred when the grammar's terminals are renamed to token names.  "
+        "(f) ANYTOKENEXCEPT / SHARED PRODUCTIONS (family any, 28 quick / 200 thorough): a tok grammar gets one or two "
+        "AnyTokenExcept(*excluded) items (excluded: at least the leading terminals of the symbol's other productions -- then the "
+        "set order of the produced rules is unobservable --, mostly also their FIRST / FOLLOW so that the expanded grammar is LL(1); "
+        "equal items of two symbols are one object); TWO tokenizer configurations that differ in one or two token names which "
+        "neither the grammar nor an item mentions (the richer one's items produce them); ONE productions dict with the same item "
+        "objects for all parsers; per configuration a program over two objects (as above) on texts rendered from ITS expanded "
+        "grammar; the two programs are executed poorer-first or richer-first, one after the other, the first one continued after "
+        "the second, or interleaved in chunks.  Every session is judged against the grammar expanded with its own token names.  "
         "Non-trivial = distinct case, both constructors succeed, is_ambiguous() False for at least one setting, the grammar has a "
         "nullable symbol, at least one member and one non-member among the inputs.")
 TRUSTED_BASE = [
@@ -67,6 +81,11 @@ TRUSTED_BASE = [
     "() / frozenset(), synonyms={}, keywords={}, span_matchers={}, keep_symbols=set() / [], start_symbol_name='' , "
     "parse(text, start_symbol_name='') -- is what the harness's translation of the case into both worlds asserts and the "
     "correspondence + oracle of the tok cases test on every run",
+    "AnyTokenExcept: the ORDER of the produced one-token rules (iteration order of a Python set) is not modelled -- the model takes the "
+    "order of cfg_terminals; the generated cases keep to grammars where it is unobservable (no other production of the symbol starts with "
+    "a produced terminal; no internal tables are compared for these cases); the item's two GrammarErrors are in the model "
+    "(Example ex_any_expansions) but not generated; an item is a VALUE in the model (C02/AnyExcept.v) -- that the implementation's item "
+    "objects and the shared productions dict carry nothing from one constructor call to the next is what the Phases cases check per run",
     "GrammarError checks of _verify_grammar_structure_part1 are outside the model; the model-side validator wf_grammar "
     "(keys distinct and no terminals, rules stored under their own symbol, only known symbols, start symbol is a key, "
     "$END$ is a terminal) is evaluated on every built grammar by C02.Run and must be true (it is the hypothesis of the theorems)",
@@ -85,7 +104,8 @@ MODELLED = ("ak/llparser.py: _get_nullables, _calc_first_sets, _calc_follow_sets
             "programs of constructor / is_ambiguous / parse calls on two objects built from one productions dict (coq/C02/Session.v); "
             "the same programs on parsers built with a tokenizer configuration and a skip_tokens argument and used on texts "
             "(coq/C02/SessionTok.v over C01/RunTok.v: LLParser.__init__ 1574-1587 default / explicit skip_tokens, the filter of "
-            "parse() 1654-1657, _Tokenizer.tokenize)")
+            "parse() 1654-1657, _Tokenizer.tokenize incl. the cut into lines at '\\n' only); AnyTokenExcept.get_tokens 1356-1370 + "
+            "_make_prod_rules_list 2389-2422 (coq/C02/AnyExcept.v: expand_ug, t_build_any; several sessions on one productions value)")
 
 
 def gen_consts(repo):
@@ -480,6 +500,9 @@ def _tok_pattern(entry):
         return f"(?P<{name}>\\s+)"
     if kind_ == "eol":
         return f"(?P<{name}>{re.escape(arg)}.*)"
+    if kind_ == "quoted":
+        q = re.escape(arg)
+        return f"{q}(?P<{name}>[^{q}]*){q}"
     raise ValueError(kind_)
 
 
@@ -524,6 +547,11 @@ def gen_tokcfg(rng):
         space = "WS"
     for lx in (" ", " ", "  ", "\t", " \t"):
         add(space, lx)
+    # white space that is a line end for str.splitlines() but not for the tokenizer (which cuts at '\n' only): when white
+    # space is a terminal of the grammar the token must stay ONE token
+    for _ in range(rng.randint(1, 3)):
+        add(space, rng.choice(["", " ", "\t"]) + rng.choice(_C01.LINE_BREAKISH + _C01.ODD_SPACE)
+            + rng.choice(["", " ", rng.choice(_C01.LINE_BREAKISH)]))
     # comments to the end of the line: group COMMENT, REM renamed to COMMENT, REM not renamed, or none
     comment = None
     r = rng.random()
@@ -539,6 +567,35 @@ def gen_tokcfg(rng):
         lex.append([cg, "eol", marker])
         for c in ("", "c", " x y", " if 1"):
             add(comment, marker + c, eol=True)
+        for _ in range(rng.randint(1, 2)):
+            v = marker + _C01._odd_core(rng, True)
+            add(comment, v + _C01._odd_trail(rng), v, eol=True)      # the line is rstripped before it is matched
+    # free text: the rest of the line as ONE token / a quoted string (the value excludes the quotes).  Never skipped by
+    # default; any character but the newline (resp. the quote) is part of the token: form feed, vertical tab, FS / GS / RS,
+    # NEL, U+2028, U+2029, a lone carriage return -- the characters at which str.splitlines() but not split('\n') cuts
+    free = []
+    if rng.random() < 0.55:
+        marker = rng.choice(["=", ":", "!"])
+        rn = "REST"
+        lex.append(["REST", "eol", marker])
+        if rng.random() < 0.4:
+            syn.append(["REST", "TEXT"])
+            rn = "TEXT"
+        free.append(rn)
+        for c in ("", "on", " a b"):
+            add(rn, marker + c, eol=True)
+        for _ in range(rng.randint(2, 4)):
+            v = marker + _C01._odd_core(rng, True)
+            add(rn, v + _C01._odd_trail(rng), v, eol=True)
+    if rng.random() < 0.45:
+        dn = "DQ"
+        lex.append(["DQ", "quoted", '"'])
+        if rng.random() < 0.5:
+            syn.append(["DQ", "STRING"])
+            dn = "STRING"
+        free.append(dn)
+        for v in ["", "x y", "if"] + [_C01._odd_core(rng, True) + _C01._odd_trail(rng) for _ in range(rng.randint(2, 4))]:
+            add(dn, '"' + v + '"', v)
     lex += [["WORD", "range", "az"], ["NUM", "range", "09"]]
     words = ["a", "bc", "x", "zz"]
     if rng.random() < 0.45:
@@ -585,7 +642,7 @@ def gen_tokcfg(rng):
     tk["spans_form"] = rng.choice(["omitted", "none", "dict"])
     tk["keep_form"] = rng.choice(["omitted", "none", "set", "list"])
     tk["start_kw"] = True
-    info = {"prod": prod, "space": space, "comment": comment, "skipset": _tok_skipset(tk)}
+    info = {"prod": prod, "space": space, "comment": comment, "skipset": _tok_skipset(tk), "free": free}
     return tk, info
 
 
@@ -642,6 +699,8 @@ def _tok_grammar(rng, info):
             raise RuntimeError("no grammar fits the configuration")
         # rename the letter terminals (injectively) to token names that are not skipped; white space and comments first
         pref = [n for n in (info["space"], info["comment"]) if n in avail]
+        if rng.random() < 0.6:
+            pref += [n for n in info.get("free", []) if n in avail]       # free-text classes (odd characters inside tokens)
         rest = [n for n in avail if n not in pref]
         rng.shuffle(rest)
         rng.shuffle(pref)
@@ -782,6 +841,138 @@ def gen_tok_case(rng, diag):
     return {"g": g, "inputs": inputs, "texts": texts, "tok": tk, "diag": diag, "src": "tok", "prog": prog}
 
 
+# ------------------------------------------------------------------ family "any": AnyTokenExcept items, one productions dict for parsers with DIFFERENT tokenizers
+# case["any"]    = [[nt, position in nt's productions list, [excluded token names]], ...]   AnyTokenExcept(*excluded) items; the
+#                  SAME Python object is used in every constructor call of the case (a grammar fragment kept by the caller)
+# case["g"]      = the grammar without the items ("prods" as always)
+# case["phases"] = [{"tok", "texts", "inputs", "prog"}, ...]   one session per TOKENIZER CONFIGURATION (different token-name sets):
+#                  all parsers of all phases are built from the one productions dict
+# case["schedule"] = [[phase, number of operations], ...]   the order in which the implementation executes the phases' programs
+# What an item MEANS (documentation of AnyTokenExcept): the one-token productions of every token of THAT parser's tokenizer
+# that is not excluded -- `_expand_any` (independent of ak); the oracle judges every phase against the grammar expanded with
+# the phase's own token names, the Coq model (C02/AnyExcept.v) expands the item itself.
+ANY_VARIABLE = ["NUM", "COMMA", ",", "SEMI", ";", "PLUS", "+", "REST", "TEXT", "DQ", "STRING"]
+
+
+def _expand_any(g, any_items, terminals):
+    items = {nt: (pos, excl) for nt, pos, excl in any_items}
+    prods = []
+    for nt, alts in g["prods"]:
+        alts = [list(a) for a in alts]
+        if nt in items:
+            pos, excl = items[nt]
+            alts = alts[:pos] + [[t] for t in sorted(terminals) if t not in excl] + alts[pos:]
+        prods.append([nt, alts])
+    return dict(g, prods=prods)
+
+
+def _tok_without(tk, info, names):
+    """the configuration without the pattern groups of the token names `names` (and what the generator knows about it)"""
+    syn = dict(map(tuple, tk["syn"]))
+    tk0 = dict(tk, lex=[e for e in tk["lex"] if syn.get(e[0], e[0]) not in names],
+               syn=[[a, b] for a, b in tk["syn"] if b not in names])
+    info0 = dict(info, prod={n: v for n, v in info["prod"].items() if n not in names},
+                 free=[n for n in info.get("free", []) if n not in names])
+    return tk0, info0
+
+
+def _phase_texts(rng, g, info, skip, n_base, n_short):
+    texts, inputs, seen = [], [], set()
+    for names in [[n for n, _ in inp] for inp in gen_inputs(rng, g, n_base, n_short)]:
+        r = _render_tok(rng, info, names)
+        if r is None or r[0] in seen:
+            continue
+        seen.add(r[0])
+        texts.append(r[0])
+        inputs.append([t for t in r[1] if t[0] not in skip])
+    return texts, inputs
+
+
+def gen_any_case(rng):
+    for _ in range(300):
+        tk, info = gen_tokcfg(rng)
+        g, start_kw = _tok_grammar(rng, info)
+        tk["start_kw"] = start_kw
+        terms_all = _tok_terminals(tk)
+        skip = set(info["skipset"])
+        prods = _plain(g)
+        used = {x for alts in prods.values() for a in alts for x in a}
+        nul, first, follow, first_seq = L.ref_first_follow(prods, g["start"])
+        items, excluded = [], set()
+        nts = list(g["nts"])
+        rng.shuffle(nts)
+        for nt in nts[:rng.choice([1, 2])]:
+            alts = prods[nt]
+            heads = {a[0] for a in alts if a and a[0] in terms_all}
+            excl = set(heads)        # needed: the order of the produced rules is then unobservable (C02/AnyExcept.v)
+            if rng.random() < 0.75:
+                # ... and whatever the other productions of nt may start with: the expanded grammar stays LL(1) at nt
+                for a in alts:
+                    f, alln = first_seq(a)
+                    excl |= set(f) | (follow[nt] if alln else set())
+            excl &= set(terms_all)
+            others = [t for t in terms_all if t not in excl]
+            if len(others) > 2:
+                excl |= set(rng.sample(others, rng.randint(0, len(others) - 2)))
+            items.append([nt, rng.randint(0, len(alts)), sorted(excl)])
+            excluded |= excl
+        if len(items) == 2 and rng.random() < 0.5:
+            items[0][2] = items[1][2] = sorted(excluded)      # equal items: ONE object in the lists of two symbols (impl_run)
+        skip_arg = set(tk["skip"] or [])
+        variable = [n for n in ANY_VARIABLE if n in info["prod"] and n in terms_all and n not in used and n not in excluded
+                    and n not in skip_arg and n not in skip]
+        if not variable:
+            continue
+        gone = rng.sample(variable, rng.randint(1, min(2, len(variable))))
+        # at least one item must produce a token that only the richer tokenizer has
+        tk0, info0 = _tok_without(tk, info, gone)
+        phases = []
+        for tk_i, info_i in ((tk, info), (tk0, info0)):
+            g_i = _expand_any(g, items, _tok_terminals(tk_i))
+            g_i["terms"] = sorted(n for n in info_i["prod"] if n not in skip)
+            if _has_duplicate_alts(g_i) or L.ref_left_recursive(_plain(g_i)):
+                break
+            texts, inputs = _phase_texts(rng, g_i, info_i, skip, 8, 3)
+            phases.append({"tok": tk_i, "texts": texts, "inputs": inputs, "prog": make_prog(rng, len(inputs), g["nts"])})
+        if len(phases) < 2:
+            continue
+        g_rich = _expand_any(g, items, _tok_terminals(tk))
+        if not L.ref_is_ll1(_plain(g_rich), g["start"]) and rng.random() < 0.85:
+            continue                  # mostly grammars that are LL(1) with the items expanded
+        if rng.random() < 0.5:
+            phases.reverse()          # the poorer tokenizer first / the richer one first
+        n0, n1 = len(phases[0]["prog"]), len(phases[1]["prog"])
+        mode = rng.choice(["seq", "split", "interleave"])
+        if mode == "seq":
+            schedule = [[0, n0], [1, n1]]
+        elif mode == "split":
+            # the first parsers are used again after the others have been built (and must be what they were)
+            k = rng.randint(2, max(2, n0 - 4))
+            schedule = [[0, k], [1, n1], [0, n0 - k]]
+        else:
+            schedule, left = [], [n0, n1]
+            while left[0] or left[1]:
+                i = rng.randint(0, 1)
+                if not left[i]:
+                    i = 1 - i
+                k = min(left[i], rng.randint(1, 12))
+                schedule.append([i, k])
+                left[i] -= k
+        return {"g": g, "any": items, "phases": phases, "schedule": schedule, "diag": False, "src": "any"}
+    raise RuntimeError("no AnyTokenExcept case found")
+
+
+def _views(case):
+    """a case with phases as the list of its sessions: each one an ordinary tok case whose grammar is the case's grammar
+    EXPANDED with the token names of the session's own tokenizer"""
+    out = []
+    for ph in case["phases"]:
+        g_i = _expand_any(case["g"], case["any"], _tok_terminals(ph["tok"]))
+        out.append({"g": g_i, "inputs": ph["inputs"], "texts": ph["texts"], "tok": ph["tok"], "prog": ph["prog"],
+                    "diag": False, "src": "any"})
+    return out
+
+
 # ------------------------------------------------------------------ programs over two parser objects
 # op = ["build", w] | ["amb", w] | ["parse", w, i] | ["parse_from", w, i, s]
 #      (w: 0 = smart_factorization False, 1 = True; i: index into inputs; s: parse(text, start_symbol_name=s))
@@ -908,12 +1099,23 @@ def gen_cases(rng, tier):
         got += 1
         add(g, "general", thorough)
     # tokenizer configurations: white space / comments as ordinary terminals, the skip_tokens argument in every form
-    for _ in range(700 if thorough else 110):
+    for _ in range(700 if thorough else 100):
         cases.append(gen_tok_case(rng, thorough))
+    # AnyTokenExcept items; ONE productions dict (the same item objects) for parsers with different tokenizers
+    # (spread over the list: such a case prints two sessions, and coqc's stack is short -- see COQ_SHARD)
+    n_any = 200 if thorough else 28
+    step = max(COQ_SHARD, len(cases) // n_any)
+    for k in range(n_any):
+        cases.insert(min(len(cases), k * (step + 1) + 3), gen_any_case(rng))
     return cases
 
 
 def kind(case):
+    if case.get("phases"):
+        v = _views(case)
+        n = len(case["schedule"])
+        return (f"src=any phases={len(v)} schedule={'seq' if n == 2 else 'split' if n == 3 else 'interleave'} "
+                f"ll1={''.join(str(int(L.ref_is_ll1(_plain(x['g']), x['g']['start']))) for x in v)}")
     g = case["g"]
     p = _plain(g)
     ll1 = L.ref_is_ll1(p, g["start"])
@@ -1004,12 +1206,91 @@ def _args_repr(kwargs):
                   for k, v in kwargs.items())
 
 
+class _Session:
+    """the parser objects of ONE tokenizer configuration and what the program's operations on them gave"""
+
+    def __init__(self, llparser, prods, tok, texts, kwargs, case):
+        self.llparser, self.prods, self.tok, self.texts, self.kwargs, self.case = llparser, prods, tok, texts, kwargs, case
+        self.args_before = _args_repr(kwargs)
+        self.args_after = None
+        self.objs = {0: None, 1: None}
+        self.out = []
+
+    def run(self, ops):
+        llparser, objs, out, texts, kwargs = self.llparser, self.objs, self.out, self.texts, self.kwargs
+        for op in ops:
+            w = op[1]
+            if op[0] == "touch":
+                self.args_after = _args_repr(kwargs)
+                _touch_args(kwargs, self.case)
+                continue
+            if op[0] == "build":
+                objs[w] = None
+                try:
+                    objs[w] = llparser.LLParser(self.tok, productions=self.prods, smart_factorization=bool(w), **kwargs)
+                    out.append(["built"])
+                except BaseException as e:  # noqa
+                    if type(e).__name__ == "Hang":
+                        raise
+                    out.append(["built", SX.exc_name(e)])
+                continue
+            p = objs[w]
+            if p is None or (op[0] != "amb" and not 0 <= op[2] < len(texts)):
+                out.append(["none"])
+            elif op[0] == "amb":
+                try:
+                    out.append(["amb", bool(p.is_ambiguous())])
+                except BaseException as e:  # noqa
+                    if type(e).__name__ == "Hang":
+                        raise
+                    out.append(["amb", SX.exc_name(e)])
+            else:
+                try:
+                    if op[0] == "parse_from":
+                        t = p.parse(texts[op[2]], do_cleanup=False, start_symbol_name=op[3])
+                    else:
+                        t = p.parse(texts[op[2]], do_cleanup=False)
+                    out.append(["parse", "ok", L.tree_obs(t)])
+                    _clobber(t)
+                except BaseException as e:  # noqa
+                    if type(e).__name__ == "Hang":
+                        raise
+                    out.append(["parse", "err", SX.exc_name(e)])
+
+    def obs(self):
+        obs = {"ops": self.out}
+        if self.case.get("diag"):
+            obs["diag"] = [_diag_obs(self.objs[w]) if self.objs[w] is not None else None for w in (0, 1)]
+        after = self.args_after if self.args_after is not None else _args_repr(self.kwargs)
+        if after != self.args_before:
+            obs["args_changed"] = [self.args_before, after]
+        return obs
+
+
 def impl_run(case):
     """runs the case's program: all constructor calls get THE SAME productions dict; the objects live as long as the
-    program says; every returned tree is observed and then taken apart."""
+    program says; every returned tree is observed and then taken apart.  A case with phases: the same productions dict --
+    with the same AnyTokenExcept objects in it -- for the parsers of every phase (= tokenizer configuration); the phases'
+    programs are executed in the order of the schedule."""
     from ak import llparser
     g = case["g"]
     prods = {nt: [tuple(a) if a else None for a in alts] for nt, alts in g["prods"]}
+    if case.get("phases"):
+        by_excl = {}
+        for nt, pos, excl in case["any"]:
+            key = tuple(excl)
+            if key not in by_excl:       # equal items of two symbols are ONE object, too
+                by_excl[key] = llparser.AnyTokenExcept(*excl)
+            prods[nt].insert(pos, by_excl[key])
+        sessions = [_Session(llparser, prods, _tok_str(ph["tok"]), list(ph["texts"]), _tok_kwargs(ph["tok"], g), ph)
+                    for ph in case["phases"]]
+        done = [0] * len(sessions)
+        for i, n in case["schedule"]:
+            sessions[i].run(case["phases"][i]["prog"][done[i]:done[i] + n])
+            done[i] += n
+        for i, ses in enumerate(sessions):        # whatever the schedule left out
+            ses.run(case["phases"][i]["prog"][done[i]:])
+        return {"phases": [ses.obs() for ses in sessions]}
     tk = case.get("tok")
     if tk:
         # the tokenizer configuration and the skip_tokens argument are the case's; ONE object per argument for all
@@ -1021,56 +1302,9 @@ def impl_run(case):
         tok = L.tokenizer_str(g["terms"])
         texts = [" ".join(v for _, v in inp) for inp in case["inputs"]]
         kwargs = {"start_symbol_name": g["start"]}
-    args_before = _args_repr(kwargs)
-    args_after = None
-    objs = {0: None, 1: None}
-    out = []
-    for op in _prog_full(case):
-        w = op[1]
-        if op[0] == "touch":
-            args_after = _args_repr(kwargs)
-            _touch_args(kwargs, case)
-            continue
-        if op[0] == "build":
-            objs[w] = None
-            try:
-                objs[w] = llparser.LLParser(tok, productions=prods, smart_factorization=bool(w), **kwargs)
-                out.append(["built"])
-            except BaseException as e:  # noqa
-                if type(e).__name__ == "Hang":
-                    raise
-                out.append(["built", SX.exc_name(e)])
-            continue
-        p = objs[w]
-        if p is None or (op[0] != "amb" and not 0 <= op[2] < len(texts)):
-            out.append(["none"])
-        elif op[0] == "amb":
-            try:
-                out.append(["amb", bool(p.is_ambiguous())])
-            except BaseException as e:  # noqa
-                if type(e).__name__ == "Hang":
-                    raise
-                out.append(["amb", SX.exc_name(e)])
-        else:
-            try:
-                if op[0] == "parse_from":
-                    t = p.parse(texts[op[2]], do_cleanup=False, start_symbol_name=op[3])
-                else:
-                    t = p.parse(texts[op[2]], do_cleanup=False)
-                out.append(["parse", "ok", L.tree_obs(t)])
-                _clobber(t)
-            except BaseException as e:  # noqa
-                if type(e).__name__ == "Hang":
-                    raise
-                out.append(["parse", "err", SX.exc_name(e)])
-    obs = {"ops": out}
-    if case.get("diag"):
-        obs["diag"] = [_diag_obs(objs[w]) if objs[w] is not None else None for w in (0, 1)]
-    if args_after is None:
-        args_after = _args_repr(kwargs)
-    if args_after != args_before:
-        obs["args_changed"] = [args_before, args_after]
-    return obs
+    ses = _Session(llparser, prods, tok, texts, kwargs, case)
+    ses.run(_prog_full(case))
+    return ses.obs()
 
 
 # ------------------------------------------------------------------ model side
@@ -1102,6 +1336,8 @@ def _c_pat(kind_, arg):
         return "TSpace"
     if kind_ == "eol":
         return f"TEol {SX.cstr(arg)}"
+    if kind_ == "quoted":
+        return f"TQuoted {ord(arg)}"
     raise ValueError(kind_)
 
 
@@ -1130,7 +1366,33 @@ def _coq_tok_case(case, obs):
             f"{SX.cbool(bool(case.get('diag')))}")
 
 
+def _coq_any_case(case, view):
+    g, tk = case["g"], view["tok"]
+    cs = L.coq_sym
+    items = {nt: (pos, excl) for nt, pos, excl in case["any"]}
+
+    def alts_term(nt, alts):
+        out = ["UAlt " + (SX.clist(cs(x) for x in a) if a else "(@nil (list Z))") for a in alts]
+        if nt in items:
+            pos, excl = items[nt]
+            out.insert(pos, "UAny " + _c_list((cs(x) for x in excl), "(list Z)"))
+        return _c_list(out, "ualt")
+    ug = SX.clist("(" + cs(nt) + ", " + alts_term(nt, alts) + ")" for nt, alts in g["prods"])
+    lex = _c_list((f"({cs(n)}, {_c_pat(k, a)})" for n, k, a in tk["lex"]), "(list Z * C04.Model.pat)")
+    syn = _c_list((f"({cs(a)}, {cs(b)})" for a, b in tk["syn"]), "(list Z * list Z)")
+    kw = _c_list((f"({cs(n)}, ({SX.cstr(v)}, {cs(k)}))" for n, v, k in tk["kw"]), "(list Z * (list Z * list Z))")
+    cfg = f"(tk_cfg {lex} (@nil (list Z * list Z)) {syn} {kw})"
+    skip = "(@None (list (list Z)))" if tk["skip"] is None else "(Some " + _c_list((cs(x) for x in tk["skip"]), "(list Z)") + ")"
+    texts = _c_list((SX.cstr(t) for t in view["texts"]), "(list Z)")
+    expected = _c_list((_c_sx(SX.ok([[SX.s(n), SX.s(v)] for n, v in inp])) for inp in view["inputs"]), "sx")
+    prog = _prog(view)
+    ops = SX.clist(coq_op(o) for o in prog) if prog else "(@nil op)"
+    return f"SessionAny {cfg} {skip} {ug} {cs(g['start'])} {FUEL}%nat {texts} {expected} {ops}"
+
+
 def coq_case(case, obs):
+    if case.get("phases"):
+        return "Phases [" + "; ".join(_coq_any_case(case, v) for v in _views(case)) + "]"
     if case.get("tok"):
         return _coq_tok_case(case, obs)
     g = case["g"]
@@ -1167,6 +1429,8 @@ def _ctor_outcomes(case, obs):
 
 
 def expected_sx(case, obs):
+    if case.get("phases"):
+        return "(" + " ".join(expected_sx(v, o) for v, o in zip(_views(case), obs["phases"])) + ")"
     ops = []
     for o in obs["ops"]:
         if o[0] == "built":
@@ -1198,6 +1462,8 @@ def in_model(case, obs):
     # compared on the validators of the missing one
     if "__hang__" in obs:
         return False
+    if case.get("phases"):
+        return all(in_model(v, o) for v, o in zip(_views(case), obs["phases"]))
     built = {op[1] for op in _prog(case) if op[0] == "build"}
     return built == {0, 1}
 
@@ -1221,6 +1487,18 @@ def oracle(case, obs):
     if "__hang__" in obs:
         return [("hang", "constructor or parse did not return for a grammar that is not left recursive: "
                  f"{case['g']['prods']} start {case['g']['start']}")]
+    if case.get("phases"):
+        # every session is judged on its own, against the grammar in which the AnyTokenExcept items stand for the tokens of
+        # the session's OWN tokenizer; that the parsers share the productions dict and the item objects must not show
+        out, seen = [], set()
+        what = (f"AnyTokenExcept items {case['any']} (symbol, position, excluded) in ONE productions dict for "
+                f"{len(case['phases'])} tokenizers, schedule {case['schedule']}; ")
+        for k, (v, o) in enumerate(zip(_views(case), obs["phases"])):
+            for sig, msg in oracle(v, o):
+                if sig not in seen:
+                    seen.add(sig)
+                    out.append((sig, what + f"tokenizer {k}, expanded {msg}"))
+        return out
     g = case["g"]
     prods = _plain(g)
     start = g["start"]
@@ -1384,6 +1662,8 @@ def _first_answers(case, obs):
 def nontrivial(case, obs):
     if "__hang__" in obs:
         return False
+    if case.get("phases"):
+        return all(nontrivial(v, o) for v, o in zip(_views(case), obs["phases"]))
     fa = _first_answers(case, obs)
     if len(fa) < 2 or any(not isinstance(v, tuple) for v in fa.values()):
         return False
@@ -1399,6 +1679,8 @@ def nontrivial(case, obs):
 def outcome(case, obs):
     if "__hang__" in obs:
         return "hang"
+    if case.get("phases"):
+        return " || ".join(outcome(v, o) for v, o in zip(_views(case), obs["phases"]))
     fa = _first_answers(case, obs)
     parts = []
     for w in (0, 1):
@@ -1430,6 +1712,21 @@ def _restrict(case, keep):
 
 
 def shrink_candidates(case):
+    if case.get("phases"):
+        # fewer operations per phase (never a constructor call); the schedule is re-cut proportionally
+        for i, ph in enumerate(case["phases"]):
+            for k, op in enumerate(ph["prog"]):
+                if op[0] != "build":
+                    phases = [dict(q) for q in case["phases"]]
+                    phases[i]["prog"] = ph["prog"][:k] + ph["prog"][k + 1:]
+                    sched, pos = [], [0] * len(phases)
+                    for j, n in case["schedule"]:
+                        n2 = n - 1 if (j == i and pos[j] <= k < pos[j] + n) else n
+                        pos[j] += n
+                        if n2:
+                            sched.append([j, n2])
+                    yield dict(case, phases=phases, schedule=sched)
+        return
     g = case["g"]
     n = len(case["inputs"])
     prog = _prog_full(case)
@@ -1480,7 +1777,13 @@ LEVEL_TEXT = ("Partial.  Full theorems (model level, all grammars accepted by th
               "parse_text_from_any_moment, objects_stay_as_constructed_text, parse_text_returns_derivation_any_moment; partial (as "
               "ll1_complete_partial): ll1_complete_text_partial; examples ex_blank_significant / ex_blank_skipped (E -> WORD TAIL; "
               "TAIL -> SPACE WORD TAIL | eps with skip_tokens [] / [COMMA] resp. None / [SPACE], group SPACE resp. WS renamed by "
-              "synonyms), ex_skip_unknown_name.  Partial: ll1_reported_partial / "
+              "synonyms), ex_skip_unknown_name.  PropsAny.v, productions with AnyTokenExcept items (full): any_item_tokens, any_item_means, "
+              "any_expansion_exact (the expanded productions of a symbol are exactly the written ones and (t,) for every terminal of THIS "
+              "parser that is not excluded), plain_productions_unchanged, any_constructor_uses_own_terminals, "
+              "shared_productions_two_tokenizers (one productions value, any two configurations: each parser is the parser of the "
+              "expansion with its own terminals), session_any_is_session_of_expansion, parse_text_returns_derivation_any, "
+              "ll1_reject_text_any (soundness w.r.t. the expanded grammar); examples ex_any_expansions, ex_any_two_tokenizers (the seed's "
+              "bracket grammar with and without quoted strings).  Partial: ll1_reported_partial / "
               "ll1_reported_no_common_prefix (LL(1) as written => is_ambiguous() False) only when the factorization is the identity "
               "(factorization_identity: no two adjacent alternatives with the same first symbol), for other grammars only "
               "ll1_reported_factorized (conflict-free iff the FACTORIZED grammar is LL(1)); ll1_complete_partial + "
